@@ -1,5 +1,6 @@
 SPECIFICATION Spec
 CONSTANTS
+  Starts <- StartsBase
   Dev <- DevWal
   MaxRuns = 3
   FlowDef <- FlowsLib
